@@ -75,13 +75,27 @@ def inputs_fn(with_T=True):
     return fn
 
 
+def to_components(inp):
+    """The same inputs in the other documented input style: metric,
+    extrinsic curvature, shift and its time derivative by components."""
+    out = {k: v for k, v in inp.items()
+           if k not in ('gammadown3', 'Kdown3', 'betaup3', 'dtbetaup3')}
+    for (i, j), n in zip(gr.SYM6, ['xx', 'xy', 'xz', 'yy', 'yz', 'zz']):
+        out['g' + n] = inp['gammadown3'][i, j].copy()
+        out['k' + n] = inp['Kdown3'][i, j].copy()
+    for i, c in enumerate('xyz'):
+        out['beta' + c] = inp['betaup3'][i].copy()
+        out['dtbeta' + c] = inp['dtbetaup3'][i].copy()
+    return out
+
+
 # options documented as 'optional, also attribute' in AurelCore
 ATTRIBUTE_OPTIONS = ('Lambda', 'vacuum', 'tetrad', 'lmax', 'center',
                      'extract_radii', 'interp_method')
 
 
 def build_core(desc, seed, p, N, with_T=True, vacuum=False, extra_kw=None,
-               inputs_extra=None, lambda_attr=False):
+               inputs_extra=None, lambda_attr=False, components=False):
     """Fresh FiniteDifference + AurelCore holding the exact inputs (frozen).
     Returns (rel, st, (X, Y, Z), inputs)."""
     from aurel.core import AurelCore
@@ -104,7 +118,8 @@ def build_core(desc, seed, p, N, with_T=True, vacuum=False, extra_kw=None,
                 setattr(rel, k, v)
         else:
             rel = AurelCore(fd, **kw)
-    for k, v in inp.items():
+    given = to_components(inp) if components else inp
+    for k, v in given.items():
         rel.data[k] = v
     for k, v in (inputs_extra or {}).items():
         rel.data[k] = v
@@ -156,6 +171,25 @@ def lambda_attribute_dependence(desc, seed, p, N, keys, forward_values,
     out = {}
     with quiet():
         for k in keys:
+            v = np.asarray(rel[k])
+            f = np.asarray(forward_values[k])
+            sc = max(float(np.abs(f).max()), 1e-3)
+            out[k] = (float(np.abs(v - f).max()) / sc
+                      if v.shape == f.shape else float('inf'))
+    return out
+
+
+def input_style_dependence(desc, seed, p, N, keys, forward_values,
+                           **build_kw):
+    """Fresh instance fed by components (gxx.., kxx.., betax.., dtbetax..)
+    instead of arrays, keys requested in REVERSE order (so that the first
+    request meets a cache holding nothing derived): every value must equal
+    the array-style forward value.  {key: relative difference}."""
+    rel, st, XYZ, inp = build_core(desc, seed, p, N, components=True,
+                                   **build_kw)
+    out = {}
+    with quiet():
+        for k in reversed(list(keys)):
             v = np.asarray(rel[k])
             f = np.asarray(forward_values[k])
             sc = max(float(np.abs(f).max()), 1e-3)
